@@ -9,11 +9,13 @@ inductive Ev
   | recv (t : Int)              -- a message from the peer is processed at time t
   | pong (g : Nat) (t : Int)    -- the answer to ping number g is processed at time t (it is a message from the peer)
   | tick (t : Int)              -- housekeeping tick at time t
+  | tickFail (t : Int)          -- housekeeping tick at time t while nothing can be sent (a ping attempt fails with an error)
   | datagram (t : Int)          -- datagram server: a datagram of a known peer is looked up at time t (then processed)
   deriving Repr, DecidableEq
 
 inductive Out
   | ping (g : Nat)
+  | pingFailed (g : Nat)        -- ping attempt number g could not be sent
   | cancelPing (g : Nat)
   | close
   deriving Repr, DecidableEq
@@ -25,6 +27,7 @@ def lastMsg (t0 : Int) : List Ev → Int
   | .pong _ t :: r => lastMsg t r
   | .datagram t :: r => lastMsg t r
   | .tick _ :: r => lastMsg t0 r
+  | .tickFail _ :: r => lastMsg t0 r
 
 /-- Number of consecutive housekeeping ticks, since the latest message, that found the peer silent for more
     than `period`. -/
@@ -34,6 +37,7 @@ def streak (period : Int) (t0 : Int) (k : Nat) : List Ev → Nat
   | .pong _ t :: r => streak period t 0 r
   | .datagram t :: r => streak period t 0 r
   | .tick t :: r => if t > t0 + period then streak period t0 (k + 1) r else streak period t0 k r
+  | .tickFail t :: r => if t > t0 + period then streak period t0 (k + 1) r else streak period t0 k r
 
 def noDatagram : List Ev → Bool
   | [] => true
